@@ -325,3 +325,98 @@ Proof.
         eapply (lt_secs_items (gs_files g)); [apply HT| |exact Hx].
         rewrite EG, removelast_last in Hlt. rewrite EG, allsecs_snoc. exact Hlt.
 Qed.
+
+(* ---------------------------------------------------------------- retained = a suffix of accepted *)
+
+Lemma gitems_g_add latest sec its gs : gitems (g_add latest sec its gs) = gitems gs ++ its.
+Proof.
+  unfold g_add. destruct ((sec >? latest) || match gs with [] => true | _ => false end) eqn:E.
+  - rewrite gitems_app. cbn [gitems flat_map snd]. rewrite app_nil_r. reflexivity.
+  - destruct gs as [|g0 r0]; [rewrite orb_true_r in E; discriminate|].
+    destruct (exists_last (l := g0 :: r0) ltac:(discriminate)) as (gs0 & p & ->).
+    rewrite upd_last_snoc, !gitems_app. cbn [gitems flat_map fst snd]. rewrite !app_nil_r, app_assoc. reflexivity.
+Qed.
+
+Lemma retained_roll c g : (exists k, retained (g_roll c g) = skipn k (retained g)) /\ gs_files (g_roll c g) <> [].
+Proof.
+  unfold g_roll, retained, dropZ. cbn [gs_files]. set (n := Z.to_nat (lenZ (gs_files g) - c_max_files c + 1)). split.
+  - exists (length (flat_map gitems (firstn n (gs_files g)))). rewrite flat_map_app. cbn [flat_map]. rewrite !app_nil_r.
+    assert (E : flat_map gitems (gs_files g) =
+                flat_map gitems (firstn n (gs_files g)) ++ flat_map gitems (skipn n (gs_files g)))
+      by (rewrite <- flat_map_app, firstn_skipn; reflexivity).
+    rewrite E. symmetry. apply skipn_exact. reflexivity.
+  - destruct (skipn n (gs_files g)); discriminate.
+Qed.
+
+Lemma retained_upd G l its (f : list group -> list group) : G <> [] ->
+  (forall gs, gitems (f gs) = gitems gs ++ its) ->
+  retained (mkGS (upd_last f G) l) = flat_map gitems G ++ its /\ upd_last f G <> [].
+Proof.
+  intros Hne Hf. destruct (exists_last Hne) as (Gi & gs & ->). rewrite upd_last_snoc. unfold retained. cbn [gs_files].
+  rewrite !flat_map_app. cbn [flat_map]. rewrite !app_nil_r, Hf, app_assoc. split; [reflexivity|]. destruct Gi; discriminate.
+Qed.
+
+Lemma skipn_norm {A} k (l m : list A) : exists k', skipn k l ++ m = skipn k' (l ++ m).
+Proof.
+  destruct (Nat.le_gt_cases k (length l)) as [H|H].
+  - exists k. rewrite skipn_app. replace (k - length l)%nat with O by lia. reflexivity.
+  - exists (length l). rewrite skipn_all2 by lia. rewrite skipn_exact by reflexivity. reflexivity.
+Qed.
+
+Definition accepts (latest ts : Z) (items : list item) : bool :=
+  (match items with [] => false | _ => true end) && (0 <? ts) && (ts / 1000 >=? latest).
+
+Lemma g_write_retained c g ts tstr items : gs_files g <> [] ->
+  let a := accepts (gs_latest g) ts items in
+  (exists k, retained (g_write c g ts tstr items) =
+             skipn k (retained g ++ (if a then map (stamp ts tstr) items else []))) /\
+  gs_files (g_write c g ts tstr items) <> [] /\
+  gs_latest (g_write c g ts tstr items) = (if a then Z.max (gs_latest g) (ts / 1000) else gs_latest g).
+Proof.
+  intros Hne. cbn zeta. unfold g_write, accepts.
+  assert (Hid : (exists k, retained g = skipn k (retained g ++ [])) /\ gs_files g <> [] /\ gs_latest g = gs_latest g).
+  { split; [exists O; rewrite app_nil_r; reflexivity|]. split; [exact Hne|reflexivity]. }
+  destruct items as [|it0 its0]; [exact Hid|]. set (items := it0 :: its0). cbn [andb].
+  destruct (ts <=? 0) eqn:Ets; [replace (0 <? ts) with false by lia; exact Hid|]. replace (0 <? ts) with true by lia.
+  destruct (ts / 1000 <? gs_latest g) eqn:Eold; [replace (ts / 1000 >=? gs_latest g) with false by lia; exact Hid|].
+  replace (ts / 1000 >=? gs_latest g) with true by lia. cbn [andb]. set (sec := ts / 1000) in *.
+  set (g1 := if (sec >? gs_latest g) && is_new_day c (gs_latest g) sec then g_roll c g else g).
+  assert (H1 : (exists k, retained g1 = skipn k (retained g)) /\ gs_files g1 <> []).
+  { unfold g1. destruct ((sec >? gs_latest g) && is_new_day c (gs_latest g) sec); [apply retained_roll|].
+    split; [exists O; reflexivity|exact Hne]. }
+  destruct H1 as [[k1 E1] Hne1].
+  set (its := map (stamp ts tstr) items).
+  destruct (retained_upd (gs_files g1) (gs_latest g) its (g_add (gs_latest g) sec its) Hne1
+              (gitems_g_add (gs_latest g) sec its)) as [E2 Hne2].
+  fold (retained g1) in E2. set (g2 := mkGS (upd_last (g_add (gs_latest g) sec its) (gs_files g1)) (gs_latest g)) in *.
+  assert (H3 : (exists k, retained (if lenZ (enc_lines (gitems (g_cur g2))) >=? c_max_size c then g_roll c g2 else g2)
+                          = skipn k (retained g2)) /\
+               gs_files (if lenZ (enc_lines (gitems (g_cur g2))) >=? c_max_size c then g_roll c g2 else g2) <> []).
+  { destruct (lenZ (enc_lines (gitems (g_cur g2))) >=? c_max_size c); [apply retained_roll|].
+    split; [exists O; reflexivity|exact Hne2]. }
+  destruct H3 as [[k3 E3] Hne3]. cbn [gs_files gs_latest]. split; [|split].
+  - unfold retained at 1. cbn [gs_files]. fold (retained (if lenZ (enc_lines (gitems (g_cur g2))) >=? c_max_size c then g_roll c g2 else g2)).
+    rewrite E3, E2, E1. destruct (skipn_norm k1 (retained g) its) as [k' ->]. exists (k' + k3)%nat. rewrite skipn_add. reflexivity.
+  - exact Hne3.
+  - destruct (sec >? gs_latest g) eqn:E; lia.
+Qed.
+
+Lemma g_run_retained c ops : forall g, gs_files g <> [] ->
+  exists k, retained (g_run c g ops) = skipn k (retained g ++ accepted_from (gs_latest g) ops).
+Proof.
+  induction ops as [|o r IH]; intros g Hne.
+  - exists O. cbn. rewrite app_nil_r. reflexivity.
+  - unfold g_run. cbn [fold_left]. fold (g_run c (g_step c g o) r). destruct o as [ts tstr items|q]; cbn [g_step accepted_from].
+    + destruct (g_write_retained c g ts tstr items Hne) as ([k1 E1] & Hne1 & El). cbn zeta in *.
+      destruct (IH _ Hne1) as [k E]. rewrite E, E1, El. unfold accepts.
+      destruct ((match items with [] => false | _ => true end) && (0 <? ts) && (ts / 1000 >=? gs_latest g)).
+      * destruct (skipn_norm k1 (retained g ++ map (stamp ts tstr) items) (accepted_from (Z.max (gs_latest g) (ts / 1000)) r)) as [k' ->].
+        exists (k' + k)%nat. rewrite skipn_add, <- app_assoc. reflexivity.
+      * rewrite app_nil_r. destruct (skipn_norm k1 (retained g) (accepted_from (gs_latest g) r)) as [k' ->].
+        exists (k' + k)%nat. rewrite skipn_add. reflexivity.
+    + apply IH. exact Hne.
+Qed.
+
+(* the retained items are, at any time, a suffix of the list of all accepted items *)
+Theorem retained_suffix c t0 ops : exists k, retained (g_run c (g_init t0) ops) = skipn k (accepted t0 ops).
+Proof. destruct (g_run_retained c ops (g_init t0) ltac:(discriminate)) as [k E]. exists k. exact E. Qed.
